@@ -534,7 +534,7 @@ fn directed() -> Vec<(&'static str, Scen)> {
         ("different-fields", Scen { rows: vec![row1()], muts: vec![m(1, None, &[(0, 11)], &[]), m(1, None, &[(1, 22)], &[])] }),
         ("reference-replace-vs-replace", Scen { rows: vec![row1()], muts: vec![m(1, None, &[], &[RefOp::Set(1, 1)]), m(1, None, &[], &[RefOp::Set(1, 2)])] }),
         ("room-move-vs-field", Scen { rows: vec![row1()], muts: vec![m(1, Some(2), &[(0, 11)], &[]), m(1, None, &[(1, 22)], &[])] }),
-        // the witness of known finding 2 (C16_refuted_room_only)
+        // the former known finding 2, fixed by 07628ab: now a passing witness (C16_room_only_moves)
         ("room-only", Scen { rows: vec![row1()], muts: vec![m(1, Some(2), &[], &[]), m(1, None, &[(1, 22)], &[])] }),
         // fields with defaults / nullable fields holding other values must survive partial updates
         ("partial-updates-keep-other-fields", Scen { rows: vec![row_free()], muts: vec![m(1, None, &[(3, 41)], &[]), m(1, None, &[(0, 11)], &[])] }),
@@ -679,7 +679,7 @@ fn observe_stream(dir: &PathBuf) -> serde_json::Value {
 }
 
 /// what MutationParser::propagate_room does with a sub entity given by id, and what the pipeline
-/// then does with it (observation only; basis of requests/C16-fix-2.diff)
+/// then does with it (observation only; basis of the fix 07628ab = requests/C16-fix-2.diff)
 fn observe_propagate_room(env: &mut Env) -> serde_json::Value {
     env.reset(&Scen { rows: vec![row1()], muts: vec![] });
     // a tag in room 1
@@ -790,8 +790,8 @@ fn main() {
     let sched3 = all_schedules(3);
     let orders = |n: usize| perms(&(0..n).collect::<Vec<_>>());
 
-    // 1. the witnesses of the known findings first: class 1 with the schedule R1 R2 V1 W1 V2 W2 and
-    //    with the rowid take-over, class 2 with a strictly sequential schedule
+    // 1. the witnesses first: class 1 with the schedule R1 R2 V1 W1 V2 W2 and with the rowid
+    //    take-over; the former class 2 (room-only move, fixed) with a strictly sequential schedule
     let lost = vec![Ev::R(0), Ev::R(1), Ev::V(0), Ev::W(0), Ev::V(1), Ev::W(1)];
     for (name, s) in directed().iter().take(3) { let c = rn.case(&format!("witness:{}", name), s, &lost, false); out.push(c); }
     { let d = directed3(); let (name, s) = &d[0]; let c = rn.case(&format!("witness:{}", name), s, &reuse_sigma(), false); out.push(c); }
